@@ -337,6 +337,17 @@ impl TcpStream {
     }
 }
 async fn connect_to(addr: SocketAddr, from: Option<SocketAddr>) -> io::Result<TcpStream> {
+    // A connection attempt takes no simulated time on a network without latency. A program that
+    // retries without any pause would then spin at one simulated instant for ever and the run would
+    // never end: after a thousand attempts at the same instant each further one costs a millisecond,
+    // so that time moves on and whoever judges the retry schedule gets to see it.
+    let storm = with(|w| {
+        let t = w.now();
+        w.connects.iter().rev().take(1000).filter(|c| c.t == t).count() >= 1000
+    });
+    if storm {
+        tokio::time::sleep(Duration::from_millis(1)).await;
+    }
     // the SYN / SYN-ACK exchange takes one round trip
     let rtt = with(|w| w.latency() + w.latency());
     if !rtt.is_zero() {
